@@ -484,7 +484,7 @@ def cases(rng, tier):
     out = []
     for cfg, events in fixed_timelines():
         out.append(mk_case(cfg, events, 'fixed'))
-    n = 5000 if tier == 'thorough' else 1200
+    n = 6000 if tier == 'thorough' else 2000
     for k in range(n):
         r = rng.random()
         if r < 0.25:
@@ -798,7 +798,7 @@ def direct(rng, tier, focus=()):
             for _ in range(10):
                 cut = [e for e in evs if rng.random() < 0.8]
                 one(cfg, cut, 'focus')
-    total = 20000 if tier == 'thorough' else 3000
+    total = 24000 if tier == 'thorough' else 4000
     for k in range(total):
         r = rng.random()
         if r < 0.25:
